@@ -648,6 +648,22 @@ class Prover:
         """does the real-code term equal a characterised (known) defective function?"""
         for fk, alt in out.alts.get(key, []):
             try:
+                if key in out.finite:
+                    # characterised non-finiteness: same NaN pattern, same finite values elsewhere
+                    got = out.finite[key]
+                    if shape_of(got) != shape_of(alt):
+                        continue
+                    ok = True
+                    for x, y in zip(flat(got), flat(alt)):
+                        claim = z3.And(badz(x) == badz(y), z3.Or(badz(x), _z(x) == _z(y)))
+                        ax = self._axioms(pc + [claim], out)
+                        r, s, dt = self._check(pc + ax + [z3.Not(claim)])
+                        if r != "unsat":
+                            ok = False
+                            break
+                    if ok:
+                        return fk
+                    continue
                 if key in out.eq:
                     got = out.eq[key][0]
                     if shape_of(got) != shape_of(alt):
